@@ -122,6 +122,7 @@ PROPS = {
     ),
     "C05": dict(
         lean_modules=["Beetswap.Props.C05"],
+        validate_handler_traces=True,
         model_scope=NODE_SCOPE + "; the connection handler (ClientConnectionHandler) is exercised in the simulator, not modelled in a theorem",
         assumptions=NODE_ASSUME + ["acknowledgements from connection handlers are not late (a handler that is alive reports RequestReceived within 1 s): violations under late acknowledgements are the known findings F13 / F14",
                                    "Tier 2 simulator: libp2p-swarm / yamux / multistream-select over the memory transport under a harness-owned executor and virtual clock"],
@@ -194,6 +195,8 @@ PROPS = {
         assumptions=CID_ASSUME + ["independence of the inbound streams of one connection (futures SelectAll) and of the behaviours from a stream's end is by construction of the handler, not modelled"],
         streams=[
             S("procmsg", ["--cases", 300], ["--cases", 30000]),
+            # the glue of lib.rs: a message with a wantlist and blocks / presences has both halves applied
+            S("node", ["--cases", 80], ["--cases", 4000, "--ops", 120]),
         ],
     ),
     "C18": dict(
@@ -211,6 +214,7 @@ PROPS = {
         assumptions=CID_ASSUME + ["const-generic sizes: theorems are size-generic, the correspondence samples the pairs {0,1,16,20,31,32,33,48,63,64,128}^2"],
         streams=[
             S("conv", ["--cases", 1000], ["--cases", 500000]),
+            S("getsize", ["--cases", 500], ["--cases", 100000]),
         ],
     ),
     "C20": dict(
